@@ -55,7 +55,7 @@ draw_prim! {
     String => |g| g.string(30);
     [u8; 4] => |g| [g.byte(), g.byte(), g.byte(), g.byte()];
     minicbor::bytes::ByteVec => |g| minicbor::bytes::ByteVec::from(g.bytes(40));
-    NilU32 => |g| NilU32(if g.chance(100) { None } else { Some(g.u32()) });
+    NilU32 => |g| NilU32(if g.chance(100) { None } else { Some(g.u32().min(u32::MAX - 1)) });
     OwnNil => |g| OwnNil(if g.chance(100) { None } else { Some(g.u32()) });
     NilStr => |g| NilStr(if g.chance(100) { String::new() } else { let s = g.string(12); if s.is_empty() { "x".into() } else { s } });
 }
@@ -236,17 +236,20 @@ pub enum Desc {
 
 // ---- harness-provided custom codecs ----------------------------------------------------------------
 
-/// A nil-capable value used through `#[cbor(with = "crate::rt::nil_u32", has_nil)]`.
+/// A nil-capable value used through `#[cbor(with = "crate::rt::nil_u32", has_nil)]`.  Its nil value is a sentinel that
+/// does *not* encode as null (`u32::MAX`, five bytes): where the derived code writes a nil value through the field's
+/// codec (below the highest present index of an array) it is those five bytes that appear, and the length must agree.
+/// Null is accepted on input (what software unaware of the field puts into the gap).
 #[derive(Debug, Clone, PartialEq, Default)]
 pub struct NilU32(pub Option<u32>);
 pub mod nil_u32 {
     use super::NilU32;
     use minicbor::{decode as dec, encode as enc, Decoder, Encoder};
-    pub fn encode<C, W: enc::Write>(v: &NilU32, e: &mut Encoder<W>, _: &mut C) -> Result<(), enc::Error<W::Error>> { match v.0 { None => e.null()?.ok(), Some(n) => e.u32(n)?.ok() } }
-    pub fn decode<'b, C>(d: &mut Decoder<'b>, _: &mut C) -> Result<NilU32, dec::Error> { if d.datatype()? == minicbor::data::Type::Null { d.null()?; Ok(NilU32(None)) } else { Ok(NilU32(Some(d.u32()?))) } }
+    pub fn encode<C, W: enc::Write>(v: &NilU32, e: &mut Encoder<W>, _: &mut C) -> Result<(), enc::Error<W::Error>> { match v.0 { None => e.u32(u32::MAX)?.ok(), Some(n) => e.u32(n)?.ok() } }
+    pub fn decode<'b, C>(d: &mut Decoder<'b>, _: &mut C) -> Result<NilU32, dec::Error> { if d.datatype()? == minicbor::data::Type::Null { d.null()?; Ok(NilU32(None)) } else { let n = d.u32()?; Ok(NilU32(if n == u32::MAX { None } else { Some(n) })) } }
     pub fn is_nil(v: &NilU32) -> bool { v.0.is_none() }
     pub fn nil() -> Option<NilU32> { Some(NilU32(None)) }
-    pub fn cbor_len<C>(v: &NilU32, ctx: &mut C) -> usize { match v.0 { None => 1, Some(n) => minicbor::CborLen::cbor_len(&n, ctx) } }
+    pub fn cbor_len<C>(v: &NilU32, ctx: &mut C) -> usize { match v.0 { None => 5, Some(n) => minicbor::CborLen::cbor_len(&n, ctx) } }
 }
 
 /// A nil-capable value used through encode_with / decode_with / is_nil / nil / cbor_len attributes.
@@ -255,11 +258,12 @@ pub struct NilStr(pub String);
 pub mod nil_str {
     use super::NilStr;
     use minicbor::{decode as dec, encode as enc, Decoder, Encoder};
-    pub fn encode<C, W: enc::Write>(v: &NilStr, e: &mut Encoder<W>, _: &mut C) -> Result<(), enc::Error<W::Error>> { if v.0.is_empty() { e.null()?.ok() } else { e.str(&v.0)?.ok() } }
+    // the nil value (the empty string) encodes as itself: one byte, but not null
+    pub fn encode<C, W: enc::Write>(v: &NilStr, e: &mut Encoder<W>, _: &mut C) -> Result<(), enc::Error<W::Error>> { e.str(&v.0)?.ok() }
     pub fn decode<'b, C>(d: &mut Decoder<'b>, _: &mut C) -> Result<NilStr, dec::Error> { if d.datatype()? == minicbor::data::Type::Null { d.null()?; Ok(NilStr(String::new())) } else { Ok(NilStr(d.str()?.to_string())) } }
     pub fn is_nil(v: &NilStr) -> bool { v.0.is_empty() }
     pub fn nil() -> Option<NilStr> { Some(NilStr(String::new())) }
-    pub fn cbor_len<C>(v: &NilStr, ctx: &mut C) -> usize { if v.0.is_empty() { 1 } else { minicbor::CborLen::cbor_len(v.0.as_str(), ctx) } }
+    pub fn cbor_len<C>(v: &NilStr, ctx: &mut C) -> usize { minicbor::CborLen::cbor_len(v.0.as_str(), ctx) }
 }
 
 /// A user type that is nil-capable through the trait methods alone: `Encode::is_nil` and `Decode::nil` are
